@@ -1089,8 +1089,18 @@ def _mb2_fn(x, y):
     return x * 2 + y
 
 
+def _mb2_cub(xp, a, p):
+    import cubed
+
+    x, y = a
+    # map_blocks pairs blocks by index: corresponding blocks are the caller's responsibility (documented contract)
+    if x.chunks != y.chunks:
+        y = y.rechunk(x.chunksize)
+    return cubed.map_blocks(_mb2_fn, x, y, dtype=x.dtype)
+
+
 reg(Op("map_blocks2", 2, lambda a, b: a.shape == b.shape and dn(a) == dn(b) and dn(a) in ("int64", "float64"), _noparams,
-       lambda xp, a, p: __import__("cubed").map_blocks(_mb2_fn, a[0], a[1], dtype=a[0].dtype), lambda v, p: v[0] * 2 + v[1], "exact", ("chunk", "multi"), 1))
+       _mb2_cub, lambda v, p: v[0] * 2 + v[1], "exact", ("chunk", "multi"), 1))
 
 
 def _ov_params(draw, st, vals):
